@@ -374,6 +374,13 @@ class WorkflowRecovery:
                             )
                         )
                 elif not_started_tasks and stage.start_time is not None:
+                    if any(t.status == WorkflowStatus.REDIRECT for t in stage.tasks):
+                        # A task of this stage asked for a jump: the JumpToStage
+                        # pushed together with its CompleteTask(REDIRECT) drives
+                        # the stage from here. Starting the next task would run
+                        # work the jump leaves behind and, once the jump re-arms
+                        # the stage, a stale StartTask that overtakes its turn.
+                        continue
                     if any(not b.status.is_complete for b in stage.before_stages()):
                         # Before-stages are still in flight: they are recovered
                         # on their own and start this stage's first task via
